@@ -13,6 +13,9 @@
 //!                     hex, without LF): obs = `Ok:<hex of everything after the BCF header>` | `Err`
 //!   cvbl HDR.. ftab v45 blocks text the record section BCF -> VCF (blocks = one hex string):
 //!                     obs = `Ok:<hex of everything after the VCF header>` | `Err`
+//!   cvbh ftab file                (round 10c, model NV.Util.ConvertVariantHdrRev) the WHOLE file BCF -> VCF: the
+//!                                 BCF prefix is read by the model (C10 read_prefix), maps and tables derived;
+//!                                 obs = hex of the WHOLE VCF output, read_header errors with their kind
 //!   cvvh ftab lines text          (round 10, model NV.Util.ConvertVariantHdr) the WHOLE file VCF -> BCF with
 //!                     the header block: nothing about the header is a case argument - the model parses
 //!                     the header text itself (C09 read_header_text), derives the lookup tables
@@ -194,6 +197,9 @@ pub fn run(c: &Case) -> Obs {
     if c.kind == "cvvh" {
         return run_hdr(c);
     }
+    if c.kind == "cvbh" {
+        return run_hdr_rev(c);
+    }
     let text = c.b(9);
     let header = match gd(|| parse_header(&text)) {
         Ok(Ok(h)) => h,
@@ -305,6 +311,59 @@ fn run_hdr(c: &Case) -> Obs {
     }
 }
 
+/// cvbh: args 0 ftab, 1 the whole uncompressed BCF file (header block + record blocks, possibly cut)
+fn run_hdr_rev(c: &Case) -> Obs {
+    let src = c.b(1);
+    let s2 = src.clone();
+    // read_header errors are reported with their kind (the model tells UnexpectedEof from InvalidData);
+    // a failure after the header is `Err`
+    let s3 = src.clone();
+    let hdr = gd(move || {
+        let mut r = variant::io::reader::Builder::default().build_from_reader(Cursor::new(s3))?;
+        r.read_header().map(|_| ())
+    });
+    match hdr {
+        Err(()) => return Obs::ok("Panic", true),
+        Ok(Err(e)) => return Obs::ok(format!("Err:{}", nv::errkind(&e)), false),
+        Ok(Ok(())) => {}
+    }
+    let out = match gd(move || pipe_all(s2, Format::Vcf)) {
+        Err(()) => return Obs::ok("Panic", true),
+        Ok(Err(_)) => return Obs::ok("Err", false),
+        Ok(Ok(out)) => out,
+    };
+    let obs = format!("Ok:{}", hex(&out));
+    // oracle: the header the VCF reader reads back is the header the BCF reader parsed (as VCF text),
+    // and the records are the same canonical lines
+    let hdr_text = |h: &vcf::Header| -> io::Result<Vec<u8>> {
+        let mut w = vcf::io::Writer::new(Vec::new());
+        w.write_header(h)?;
+        Ok(w.into_inner())
+    };
+    let s4 = src.clone();
+    let h_src = gd(move || bcf::io::Reader::from(Cursor::new(s4)).read_header().and_then(|h| hdr_text(&h)));
+    let o2 = out.clone();
+    let h_dst = gd(move || parse_header(&o2).and_then(|h| hdr_text(&h)));
+    match (h_src, h_dst) {
+        (Ok(Ok(a)), Ok(Ok(b))) => {
+            if a != b {
+                return Obs::fail(obs, "convert-bcf-to-vcf-changes-header", String::from_utf8_lossy(&b).into_owned());
+            }
+        }
+        (_, Ok(Err(e))) => return Obs::fail(obs, "convert-bcf-to-vcf-output-unreadable", format!("header {} {e}", nv::errkind(&e))),
+        _ => return Obs::fail(obs, "convert-reader-panic", "a header reader panicked or the source header is unreadable"),
+    }
+    match (gd(|| canon_bcf(src)), gd(|| canon_vcf(out))) {
+        (Ok(Ok(a)), Ok(Ok(b))) => match super::common::first_diff(&a, &b) {
+            Some(d) => Obs::fail(obs, "convert-bcf-to-vcf-changes-records", d),
+            None => Obs::ok(obs, true),
+        },
+        (Ok(Err(_)), _) => Obs::ok(obs, false),
+        (_, Ok(Err(e))) => Obs::fail(obs, "convert-bcf-to-vcf-output-unreadable", format!("{} {e}", nv::errkind(&e))),
+        _ => Obs::fail(obs, "convert-reader-panic", "a format reader panicked on the conversion's input or output"),
+    }
+}
+
 fn push(w: &mut CaseWriter, kind: &str, header: &vcf::Header, header_text: &str, vcf_side: &[u8], payload: String) {
     let mut args = header_args(header);
     args.push(ftab_of(vcf_side));
@@ -375,10 +434,28 @@ pub fn generate(rng: &mut Rng, tier: &str, w: &mut CaseWriter) {
         let mut side: Vec<u8> = joined.clone();
         let mut one = pipe_all(spec.header_text.clone().into_bytes(), Format::Bcf).unwrap_or_default();
         one.extend_from_slice(&all);
-        if let Outcome::Done(Ok(out)) = guarded(std::panic::AssertUnwindSafe(|| pipe_all(one, Format::Vcf))) {
+        if let Outcome::Done(Ok(out)) = guarded(std::panic::AssertUnwindSafe(|| pipe_all(one.clone(), Format::Vcf))) {
             side.extend_from_slice(&out);
         }
         push(w, "cvbl", &header, &spec.header_text, &side, hex(&all));
+        // the whole BCF file, header block included; the header block alone; a cut inside the
+        // header block (>= 9 bytes: the magic stays, so the file is still detected as BCF) and
+        // inside the record section
+        if one.len() > 9 {
+            let hdr_len = one.len() - all.len();
+            w.push("cvbh", vec![ftab_of(&side), hex(&one)]);
+            if i % 4 == 0 {
+                w.push("cvbh", vec!["-".into(), hex(&one[..hdr_len])]);
+            }
+            if i % 3 == 0 {
+                let cut = 9 + rng.below((hdr_len - 9) as u64) as usize;
+                w.push("cvbh", vec!["-".into(), hex(&one[..cut])]);
+            }
+            if i % 5 == 0 && !all.is_empty() {
+                let cut = hdr_len + 1 + rng.below((all.len() - 1).max(1) as u64) as usize;
+                w.push("cvbh", vec![ftab_of(&side), hex(&one[..cut.min(one.len())])]);
+            }
+        }
         // a mutated line now and then: what the lazy reader / the encoder reject
         if let Some(l) = small.first() {
             let cols: Vec<&str> = l.split('\t').collect();
